@@ -1,4 +1,3 @@
 package sim
 
 func genRetryManual(r *Rng, prop string) *Scenario { return genReconn(r, prop) }
-func genC20(r *Rng) *Scenario                      { return genC04(r) }
